@@ -221,6 +221,24 @@ def seg_eval(t, env):
                     parts.pop(0 if side == 'l' else -1)
             return _join(parts)
         raise SegUnknown(show(t)[:120])
+    if op == 'mcall' and t[2] in ('isdigit', 'isalpha', 'isalnum', 'islower', 'isupper', 'isascii', 'isspace') and not t[3]:
+        # a character-class test of the whole layout: False as soon as one constant part fails it, otherwise decided by the symbolic fields
+        base = seg_eval(t[1], env)
+        if isinstance(base, Dep):
+            return base
+        if is_seg(base):
+            if not base:
+                return False
+            consts = [p for p in base if isinstance(p, bytes)]
+            fields = [p[1] for p in base if not isinstance(p, bytes)]
+            if t[2] in ('islower', 'isupper'):
+                if fields:
+                    return Dep(fields)
+                return getattr(b''.join(consts), t[2])()
+            if any(not getattr(c.decode('latin-1'), t[2])() for c in consts):
+                return False
+            return Dep(fields) if fields else True
+        raise SegUnknown(show(t)[:120])
     if op == 'call' and t[1] == 'ord' and len(t[2]) == 1:
         v = seg_eval(t[2][0], env)
         if is_seg(v) and seg_len(v) == 1:
